@@ -198,10 +198,17 @@ structure Inv0 (w : W cr) : Prop where
   dflt : ∀ id, w.dflt = some id ↔ (id ∈ w.list ∧ ∃ a, w.deref id = some a ∧ a.isDefault = true)
   sealOK : ∀ id ∈ w.list, ∀ a, w.deref id = some a → a.Sealed
 
-theorem deref_lt {w : W cr} (h : Inv0 w) {id : Nat} {a : Acc cr} (hd : w.deref id = some a) : id < w.next :=
+/-- the heap part of the invariant: ids are allocated below `next`, every list entry points to an object -/
+structure HeapOK (w : W cr) : Prop where
+  fresh : ∀ x ∈ w.heap, x.1 < w.next
+  listIn : ∀ id ∈ w.list, ∃ a, w.deref id = some a
+
+theorem Inv0.heapOK {w : W cr} (h : Inv0 w) : HeapOK w := ⟨h.fresh, h.listIn⟩
+
+theorem deref_lt {w : W cr} (h : HeapOK w) {id : Nat} {a : Acc cr} (hd : w.deref id = some a) : id < w.next :=
   h.fresh _ (lk_some_mem hd)
 
-theorem deref_next_none {w : W cr} (h : Inv0 w) : w.deref w.next = none := by
+theorem deref_next_none {w : W cr} (h : HeapOK w) : w.deref w.next = none := by
   cases hd : w.deref w.next with
   | none => rfl
   | some a => exact absurd (deref_lt h hd) (Nat.lt_irrefl _)
@@ -226,7 +233,7 @@ structure PushOK (w : W cr) (a : Acc cr) : Prop where
 @[simp] theorem push_prm (w : W cr) (a : Acc cr) : (w.push a).prm = w.prm := rfl
 @[simp] theorem push_file (w : W cr) (a : Acc cr) : (w.push a).file = w.file := rfl
 
-theorem deref_push (w : W cr) (h : Inv0 w) (a : Acc cr) (id : Nat) :
+theorem deref_push (w : W cr) (h : HeapOK w) (a : Acc cr) (id : Nat) :
     (w.push a).deref id = if id = w.next then some a else w.deref id := by
   simp only [W.deref, push_heap, lk_append_single]
   by_cases he : id = w.next
@@ -239,10 +246,10 @@ theorem deref_push (w : W cr) (h : Inv0 w) (a : Acc cr) (id : Nat) :
     cases lk w.heap id <;> rfl
 
 theorem push_inv {w : W cr} (h : Inv0 w) {a : Acc cr} (hp : PushOK w a) : Inv0 (w.push a) := by
-  have hd := deref_push w h a
+  have hd := deref_push w h.heapOK a
   have hnl : w.next ∉ w.list := fun hm => by
     obtain ⟨b, hb⟩ := h.listIn _ hm
-    exact absurd (deref_lt h hb) (Nat.lt_irrefl _)
+    exact absurd (deref_lt h.heapOK hb) (Nat.lt_irrefl _)
   have hlist : (w.push a).list = w.list ++ [w.next] := rfl
   -- an old list member keeps its object
   have hold : ∀ id ∈ w.list, (w.push a).deref id = w.deref id := by
@@ -383,7 +390,7 @@ theorem push_inv {w : W cr} (h : Inv0 w) {a : Acc cr} (hp : PushOK w a) : Inv0 (
       rw [hd] at hb; simp at hb; subst hb
       exact hp.sealOK
 
-theorem records_push {w : W cr} (h : Inv0 w) (a : Acc cr) : (w.push a).records = w.records ++ [a] := by
+theorem records_push {w : W cr} (h : HeapOK w) (a : Acc cr) : (w.push a).records = w.records ++ [a] := by
   have hd := deref_push w h a
   have hnl : w.next ∉ w.list := fun hm => by
     obtain ⟨b, hb⟩ := h.listIn _ hm
@@ -568,7 +575,7 @@ theorem loadRecs_inv {w : W cr} (h : Inv0 w) (recs : List (Acc cr)) (hpw : recs.
         rw [if_neg this]; exact hpb.dflt hbd
     obtain ⟨i1, i2, i3, i4⟩ := ih hi hpw.2 hfree'
     refine ⟨i1, ?_, by rw [i3]; rfl, by rw [i4]; rfl⟩
-    rw [i2, records_push h a]; simp
+    rw [i2, records_push h.heapOK a]; simp
 
 /-- reopening a well-indexed wallet whose file mirrors the list gives a well-indexed wallet with the same records -/
 theorem load_spec (prm : Nat) (recs : List (Acc cr)) (hpw : recs.Pairwise recRel) (hs : ∀ a ∈ recs, a.Sealed) :
@@ -580,5 +587,640 @@ theorem load_spec (prm : Nat) (recs : List (Acc cr)) (hpw : recs.Pairwise recRel
   obtain ⟨i1, i2, i3, i4⟩ := loadRecs_inv h0 recs hpw
     (fun a ha => ⟨by simp [W.fresh, lk], by simp [W.fresh, lk], by simp [W.fresh], hs a ha⟩)
   exact ⟨i1, by rw [i2]; simp [W.records, W.fresh], i3, i4⟩
+
+/-! ### the full invariant and its preservation (repaired variant) -/
+
+structure Inv (w : W cr) : Prop where
+  idx : Inv0 w
+  dfltSome : w.list ≠ [] → w.dflt.isSome = true
+  file : (w.file = none ∧ w.list = [] ∧ w.prm = DEFAULT_PRM) ∨ w.file = some (w.prm, w.records)
+
+theorem Inv0.save {w : W cr} (h : Inv0 w) : Inv0 w.save :=
+  ⟨h.fresh, h.listNodup, h.listIn, h.addr, h.addrKeys, h.addrLen, h.label, h.dflt, h.sealOK⟩
+
+theorem Inv.of_saved {w : W cr} (h : Inv0 w) (hd : w.list ≠ [] → w.dflt.isSome = true) : Inv w.save :=
+  ⟨h.save, hd, Or.inr rfl⟩
+
+theorem Inv.fresh : Inv (W.fresh cr) := ⟨Inv0.fresh_empty _ _, by simp [W.fresh], Or.inl ⟨rfl, rfl, rfl⟩⟩
+
+/-- reopening: well indexed again, same records, same parameters -/
+theorem reload_spec {w : W cr} (h : Inv w) :
+    Inv w.reload ∧ w.reload.records = w.records ∧ w.reload.prm = w.prm := by
+  unfold W.reload
+  rcases h.file with ⟨hf, hl, hp⟩ | hf
+  · rw [hf]
+    refine ⟨Inv.fresh, ?_, ?_⟩
+    · simp [W.load, W.fresh, W.records, hl]
+    · simp [W.load, W.fresh, hp]
+  · rw [hf]
+    obtain ⟨i1, i2, i3, i4⟩ := load_spec w.prm w.records (records_pairwise h.idx)
+      (fun a ha => by obtain ⟨id, hm, hd⟩ := mem_records.mp ha; exact h.idx.sealOK id hm a hd)
+    refine ⟨⟨i1, ?_, Or.inr (by rw [i4, i3, i2])⟩, i2, i3⟩
+    intro hne
+    -- the default account of `w` is a record, hence a record of the reloaded wallet, hence its default
+    have hlen := records_length i1
+    have hlen0 := records_length h.idx
+    have hwl : w.list ≠ [] := by
+      intro e
+      rw [i2, hlen0, e] at hlen
+      exact hne (List.length_eq_zero_iff.mp hlen.symm)
+    have hds := h.dfltSome hwl
+    cases hdd : w.dflt with
+    | none => rw [hdd] at hds; cases hds
+    | some d =>
+      obtain ⟨hm, a, ha, had⟩ := (h.idx.dflt d).mp hdd
+      have : a ∈ (W.load (some (w.prm, w.records))).records := by rw [i2]; exact mem_records.mpr ⟨d, hm, ha⟩
+      obtain ⟨d', hm', ha'⟩ := mem_records.mp this
+      rw [(i1.dflt d').mpr ⟨hm', a, ha', had⟩]; rfl
+
+/-- replacing an object by one with the same address, label and default flag keeps the index valid -/
+theorem setObj_inv0 {w : W cr} (h : Inv0 w) {id : Nat} {a a' : Acc cr} (hd : w.deref id = some a)
+    (e1 : a'.addr = a.addr) (e2 : a'.label = a.label) (e3 : a'.isDefault = a.isDefault) (e4 : a'.Sealed) :
+    Inv0 (w.setObj id a') := by
+  have hder := deref_setObj w id
+  have key : ∀ (P : Acc cr → Prop), (P a' ↔ P a) → ∀ x,
+      (∃ b, (w.setObj id a').deref x = some b ∧ P b) ↔ (∃ b, w.deref x = some b ∧ P b) := by
+    intro P hP x
+    rw [hder]
+    by_cases hx : id = x
+    · subst hx
+      simp only [if_true, hd]
+      constructor
+      · rintro ⟨b, hb, pb⟩; cases hb; exact ⟨a, rfl, hP.mp pb⟩
+      · rintro ⟨b, hb, pb⟩; cases hb; exact ⟨a', rfl, hP.mpr pb⟩
+    · simp [hx]
+  refine ⟨?_, h.listNodup, ?_, ?_, h.addrKeys, h.addrLen, ?_, ?_, ?_⟩
+  · intro x hx
+    rcases mem_ins hx with hx | hx
+    · cases hx; exact deref_lt h.heapOK hd
+    · exact h.fresh x hx
+  · intro x hx
+    have := (key (fun _ => True) (by simp) x).mpr (by obtain ⟨b, hb⟩ := h.listIn x hx; exact ⟨b, hb, trivial⟩)
+    obtain ⟨b, hb, _⟩ := this; exact ⟨b, hb⟩
+  · intro ad x
+    show lk w.byAddr ad = some x ↔ (x ∈ w.list ∧ ∃ b, (w.setObj id a').deref x = some b ∧ b.addr = ad)
+    rw [key (fun b => b.addr = ad) (by simp [e1]) x]; exact h.addr ad x
+  · intro l x
+    show lk w.byLabel l = some x ↔ (l ≠ "" ∧ x ∈ w.list ∧ ∃ b, (w.setObj id a').deref x = some b ∧ b.label = l)
+    rw [key (fun b => b.label = l) (by simp [e2]) x]; exact h.label l x
+  · intro x
+    show w.dflt = some x ↔ (x ∈ w.list ∧ ∃ b, (w.setObj id a').deref x = some b ∧ b.isDefault = true)
+    rw [key (fun b => b.isDefault = true) (by simp [e3]) x]; exact h.dflt x
+  · intro x hx b hb
+    rw [hder] at hb
+    by_cases hxe : id = x
+    · simp only [hxe, if_true, Option.some.injEq] at hb; subst hb; exact e4
+    · simp only [hxe, if_false] at hb; exact h.sealOK x hx b hb
+
+theorem addAccountData_inv {w : W cr} (h : Inv w) (a : Acc cr) (hnd : a.isDefault = false) (hs : a.Sealed) :
+    Inv (w.addAccountData .sound a).2 := by
+  unfold W.addAccountData
+  split
+  · exact h
+  · split
+    · exact h
+    · split
+      · exact h
+      · rename_i _ hlab hadr
+        have hadr' : lk w.byAddr a.addr = none := by
+          cases hl : lk w.byAddr a.addr with
+          | none => rfl
+          | some x => exact absurd ⟨rfl, by simp [hl]⟩ hadr
+        simp only
+        have hlabel : a.label ≠ "" → lk w.byLabel a.label = none := by
+          intro h0
+          cases hl : lk w.byLabel a.label with
+          | none => rfl
+          | some x => exact absurd ⟨h0, by simp [hl]⟩ hlab
+        by_cases hemp : w.list.length = 0
+        · simp only [hemp, if_true]
+          have hle : w.list = [] := List.length_eq_zero_iff.mp hemp
+          have hdn : w.dflt = none := by
+            cases hdd : w.dflt with
+            | none => rfl
+            | some d => have := ((h.idx.dflt d).mp hdd).1; rw [hle] at this; cases this
+          have hp : PushOK w { a with isDefault := true } :=
+            ⟨hadr', hlabel, fun _ => hdn, hs⟩
+          exact Inv.of_saved (push_inv h.idx hp) (fun _ => by simp)
+        · simp only [hemp, if_false]
+          have hp : PushOK w a :=
+            ⟨hadr', hlabel, fun e => (by rw [hnd] at e; cases e), hs⟩
+          refine Inv.of_saved (push_inv h.idx hp) (fun _ => ?_)
+          simp only [push_dflt, hnd]
+          exact h.dfltSome (fun e => hemp (by rw [e]; rfl))
+
+theorem changeScheme_inv {w : W cr} (h : Inv w) (addr scheme : Nat) : Inv (w.changeScheme addr scheme).2 := by
+  unfold W.changeScheme
+  split
+  · exact h
+  · split
+    · exact h
+    · rename_i id hl _ a ha
+      split
+      · exact h
+      · exact Inv.of_saved (setObj_inv0 h.idx ha rfl rfl rfl (h.idx.sealOK id ((h.idx.addr _ id).mp hl).1 a ha)) h.dfltSome
+
+theorem changePassword_inv {w : W cr} (v : Variant) (h : Inv w) (addr old new salt : Nat) :
+    Inv (w.changePassword v addr old new salt).2 := by
+  unfold W.changePassword
+  split
+  · exact h
+  · split
+    · exact h
+    · split
+      · exact h
+      · rename_i id _ a ha
+        split
+        · exact h
+        · split
+          · exact h
+          · exact Inv.of_saved (setObj_inv0 h.idx ha rfl rfl rfl rfl) h.dfltSome
+
+/-- in a well-indexed wallet `DelAccount(address)` removes exactly the indexed object -/
+theorem delFirst_eq {w : W cr} (h : Inv0 w) {addr id : Nat} (hl : lk w.byAddr addr = some id) :
+    ∀ l : List Nat, (∀ x ∈ l, x ∈ w.list) → delFirst w addr l = l.erase id := by
+  intro l
+  induction l with
+  | nil => intro _; rfl
+  | cons x r ih =>
+    intro hsub
+    have hx : x ∈ w.list := hsub x (by simp)
+    obtain ⟨b, hb⟩ := h.listIn x hx
+    simp only [delFirst, hb]
+    by_cases he : b.addr = addr
+    · have := (h.addr addr x).mpr ⟨hx, b, hb, he⟩
+      rw [hl] at this
+      have hxe : id = x := Option.some.inj this
+      subst hxe
+      simp [he]
+    · have hne : x ≠ id := by
+        intro e; subst e
+        obtain ⟨_, c, hc, hca⟩ := (h.addr addr x).mp hl
+        rw [hb] at hc; cases hc; exact he hca
+      simp only [he, if_false]
+      rw [List.erase_cons_tail (by simpa using hne)]
+      rw [ih (fun y hy => hsub y (List.mem_cons_of_mem _ hy))]
+
+theorem deleteAccount_inv {w : W cr} (h : Inv w) (addr pw : Nat) : Inv (w.deleteAccount addr pw).2 := by
+  unfold W.deleteAccount
+  split
+  · exact h
+  · rename_i id hl
+    split
+    · exact h
+    · rename_i a ha
+      split
+      · exact h
+      · rename_i hnd
+        split
+        · exact h
+        · have hI := h.idx
+          obtain ⟨hm, a0, ha0, haa⟩ := (hI.addr addr id).mp hl
+          rw [ha] at ha0; cases ha0
+          have hdel : delFirst w a.addr w.list = w.list.erase id := by
+            rw [← haa] at hl; exact delFirst_eq hI hl w.list (fun x hx => hx)
+          have hmem : ∀ x, x ∈ w.list.erase id ↔ (x ∈ w.list ∧ x ≠ id) := by
+            intro x; rw [hI.listNodup.mem_erase_iff]; exact And.comm
+          -- the state after the operation, spelled out
+          let w4 : W cr := (if a.label ≠ "" then
+              { ({ ({ w with list := delFirst w addr w.list } : W cr).save with
+                  byAddr := ers ({ w with list := delFirst w addr w.list } : W cr).save.byAddr addr } : W cr) with
+                byLabel := ers w.byLabel a.label }
+            else { ({ w with list := delFirst w addr w.list } : W cr).save with byAddr := ers w.byAddr addr })
+          show Inv w4
+          have hlist : w4.list = w.list.erase id := by
+            simp only [w4]; split <;> (simp only [W.save]; rw [← haa, hdel])
+          have hheap : ∀ x, w4.deref x = w.deref x := by
+            intro x; simp only [w4]; split <;> rfl
+          have hbyA : w4.byAddr = ers w.byAddr addr := by simp only [w4]; split <;> rfl
+          have hbyL : w4.byLabel = if a.label ≠ "" then ers w.byLabel a.label else w.byLabel := by
+            simp only [w4]; split <;> simp_all [W.save]
+          have hdf : w4.dflt = w.dflt := by simp only [w4]; split <;> rfl
+          have hnx : w4.next = w.next := by simp only [w4]; split <;> rfl
+          have hhp : w4.heap = w.heap := by simp only [w4]; split <;> rfl
+          have hfile : w4.file = some (w4.prm, w4.records) := by
+            simp only [w4]; split <;> rfl
+          have hI4 : Inv0 w4 := by
+            refine ⟨?_, ?_, ?_, ?_, ?_, ?_, ?_, ?_, ?_⟩
+            · rw [hhp, hnx]; exact hI.fresh
+            · rw [hlist]; exact hI.listNodup.erase id
+            · intro x hx; rw [hlist, hmem] at hx; rw [hheap]; exact hI.listIn x hx.1
+            · intro ad x
+              rw [hbyA, lk_ers, hlist, hmem]
+              simp only [hheap]
+              by_cases hk : addr = ad
+              · subst hk
+                simp only [if_true]
+                constructor
+                · intro e; cases e
+                · rintro ⟨⟨hx, hne⟩, b, hb, hba⟩
+                  have := (hI.addr addr x).mpr ⟨hx, b, hb, hba⟩
+                  rw [hl] at this; exact absurd (Option.some.inj this).symm hne
+              · simp only [hk, if_false]
+                rw [hI.addr ad x]
+                constructor
+                · rintro ⟨hx, b, hb, hba⟩
+                  refine ⟨⟨hx, ?_⟩, b, hb, hba⟩
+                  intro e; subst e
+                  rw [ha] at hb; cases hb; exact hk (haa.symm.trans hba)
+                · rintro ⟨⟨hx, _⟩, b, hb, hba⟩; exact ⟨hx, b, hb, hba⟩
+            · rw [hbyA]; exact (ers_sublist _ _).map _ |>.nodup hI.addrKeys
+            · rw [hbyA, hlist]
+              have := ers_length hI.addrKeys hl
+              have h2 := List.length_erase_of_mem hm
+              rw [hI.addrLen] at this
+              omega
+            · intro l x
+              rw [hbyL, hlist, hmem]
+              simp only [hheap]
+              by_cases hl0 : a.label ≠ ""
+              · rw [if_pos hl0, lk_ers]
+                by_cases hk : a.label = l
+                · subst hk
+                  simp only [if_true]
+                  constructor
+                  · intro e; cases e
+                  · rintro ⟨_, ⟨hx, hne⟩, b, hb, hbl⟩
+                    have e1 := (hI.label a.label x).mpr ⟨hl0, hx, b, hb, hbl⟩
+                    have e2 := (hI.label a.label id).mpr ⟨hl0, hm, a, ha, rfl⟩
+                    rw [e1] at e2; exact absurd (Option.some.inj e2) hne
+                · simp only [hk, if_false]
+                  rw [hI.label l x]
+                  constructor
+                  · rintro ⟨h0, hx, b, hb, hbl⟩
+                    refine ⟨h0, ⟨hx, ?_⟩, b, hb, hbl⟩
+                    intro e; subst e
+                    rw [ha] at hb; cases hb; exact hk hbl
+                  · rintro ⟨h0, ⟨hx, _⟩, b, hb, hbl⟩; exact ⟨h0, hx, b, hb, hbl⟩
+              · rw [if_neg hl0, hI.label l x]
+                have hl0' : a.label = "" := by simpa using hl0
+                constructor
+                · rintro ⟨h0, hx, b, hb, hbl⟩
+                  refine ⟨h0, ⟨hx, ?_⟩, b, hb, hbl⟩
+                  intro e; subst e
+                  rw [ha] at hb; cases hb; exact h0 (hbl ▸ hl0')
+                · rintro ⟨h0, ⟨hx, _⟩, b, hb, hbl⟩; exact ⟨h0, hx, b, hb, hbl⟩
+            · intro x
+              rw [hdf, hlist, hmem, hI.dflt x]
+              simp only [hheap]
+              constructor
+              · rintro ⟨hx, b, hb, hbd⟩
+                refine ⟨⟨hx, ?_⟩, b, hb, hbd⟩
+                intro e; subst e
+                rw [ha] at hb; cases hb; exact hnd hbd
+              · rintro ⟨⟨hx, _⟩, b, hb, hbd⟩; exact ⟨hx, b, hb, hbd⟩
+            · intro x hx b hb
+              rw [hlist, hmem] at hx; rw [hheap] at hb
+              exact hI.sealOK x hx.1 b hb
+          refine ⟨hI4, ?_, Or.inr hfile⟩
+          intro _
+          rw [hdf]
+          exact h.dfltSome (fun e => by rw [e] at hm; cases hm)
+
+theorem setLabel_inv {w : W cr} (h : Inv w) (addr : Nat) (label : String) : Inv (w.setLabel .sound addr label).2 := by
+  unfold W.setLabel
+  split
+  · exact h
+  · rename_i hfree
+    have hfree' : lk w.byLabel label = none := by
+      cases hl : lk w.byLabel label with
+      | none => rfl
+      | some x => exact absurd (by simp [hl]) hfree
+    split
+    · exact h
+    · rename_i id hl
+      split
+      · exact h
+      · rename_i a ha
+        split
+        · exact h
+        · rename_i hne
+          have hI := h.idx
+          obtain ⟨hm, a0, ha0, haa⟩ := (hI.addr addr id).mp hl
+          rw [ha] at ha0; cases ha0
+          let a' : Acc cr := { a with label := label }
+          let w1 := (w.setObj id a').save
+          let w3 : W cr := if Variant.sound.fixEmptyLabel ∧ label = "" then { w1 with byLabel := ers w1.byLabel a.label }
+            else { ({ w1 with byLabel := ers w1.byLabel a.label } : W cr) with byLabel := ins (ers w1.byLabel a.label) label id }
+          show Inv w3
+          have hder : ∀ x, w3.deref x = if id = x then some a' else w.deref x := by
+            intro x; simp only [w3]; split <;> exact deref_setObj w id x a'
+          have hlist : w3.list = w.list := by simp only [w3]; split <;> rfl
+          have hbyA : w3.byAddr = w.byAddr := by simp only [w3]; split <;> rfl
+          have hdf : w3.dflt = w.dflt := by simp only [w3]; split <;> rfl
+          have hnx : w3.next = w.next := by simp only [w3]; split <;> rfl
+          have hhp : w3.heap = ins w.heap id a' := by simp only [w3]; split <;> rfl
+          have hfile : w3.file = some (w3.prm, w3.records) := by simp only [w3]; split <;> rfl
+          have hbyL : ∀ l, lk w3.byLabel l = if label ≠ "" ∧ label = l then some id else if a.label = l then none else lk w.byLabel l := by
+            intro l
+            simp only [w3]
+            by_cases hle : label = ""
+            · have : Variant.sound.fixEmptyLabel = true ∧ label = "" := ⟨rfl, hle⟩
+              rw [if_pos this]
+              simp only [hle, ne_eq, not_true, false_and, if_false]
+              exact lk_ers _ _ _
+            · have : ¬ (Variant.sound.fixEmptyLabel = true ∧ label = "") := fun e => hle e.2
+              rw [if_neg this]
+              simp only [lk_ins, ne_eq, hle, not_false_iff, true_and]
+              by_cases hk : label = l
+              · simp [hk]
+              · simp only [hk, if_false]; exact lk_ers _ _ _
+          -- field-preserving part (address, default flag)
+          have key : ∀ (P : Acc cr → Prop), (P a' ↔ P a) → ∀ x,
+              (∃ b, w3.deref x = some b ∧ P b) ↔ (∃ b, w.deref x = some b ∧ P b) := by
+            intro P hP x
+            rw [hder]
+            by_cases hx : id = x
+            · subst hx
+              simp only [if_true, ha]
+              constructor
+              · rintro ⟨b, hb, pb⟩; cases hb; exact ⟨a, rfl, hP.mp pb⟩
+              · rintro ⟨b, hb, pb⟩; cases hb; exact ⟨a', rfl, hP.mpr pb⟩
+            · simp [hx]
+          have hI3 : Inv0 w3 := by
+            refine ⟨?_, ?_, ?_, ?_, ?_, ?_, ?_, ?_, ?_⟩
+            · intro x hx
+              rw [hhp] at hx; rw [hnx]
+              rcases mem_ins hx with hx | hx
+              · cases hx; exact deref_lt hI.heapOK ha
+              · exact hI.fresh x hx
+            · rw [hlist]; exact hI.listNodup
+            · intro x hx
+              rw [hlist] at hx
+              have := (key (fun _ => True) (by simp) x).mpr (by obtain ⟨b, hb⟩ := hI.listIn x hx; exact ⟨b, hb, trivial⟩)
+              obtain ⟨b, hb, _⟩ := this; exact ⟨b, hb⟩
+            · intro ad x
+              rw [hbyA, hlist, key (fun b => b.addr = ad) (by simp [a']) x]; exact hI.addr ad x
+            · rw [hbyA]; exact hI.addrKeys
+            · rw [hbyA, hlist]; exact hI.addrLen
+            · intro l x
+              rw [hbyL l, hlist]
+              by_cases hk : label ≠ "" ∧ label = l
+              · obtain ⟨hk0, hk1⟩ := hk
+                subst hk1
+                simp only [hk0, ne_eq, not_false_iff, and_self, if_true, Option.some.injEq, true_and]
+                constructor
+                · intro e; subst e
+                  exact ⟨hm, a', by rw [hder]; simp, rfl⟩
+                · rintro ⟨hx, b, hb, hbl⟩
+                  rw [hder] at hb
+                  by_cases hxe : id = x
+                  · exact hxe
+                  · simp only [hxe, if_false] at hb
+                    have := (hI.label label x).mpr ⟨hk0, hx, b, hb, hbl⟩
+                    rw [hfree'] at this; cases this
+              · rw [if_neg hk]
+                by_cases hk2 : a.label = l
+                · subst hk2
+                  simp only [if_true]
+                  constructor
+                  · intro e; cases e
+                  · rintro ⟨h0, hx, b, hb, hbl⟩
+                    rw [hder] at hb
+                    by_cases hxe : id = x
+                    · simp only [hxe, if_true, Option.some.injEq] at hb
+                      subst hb
+                      exact (hne hbl.symm).elim
+                    · simp only [hxe, if_false] at hb
+                      have e1 := (hI.label a.label x).mpr ⟨h0, hx, b, hb, hbl⟩
+                      have e2 := (hI.label a.label id).mpr ⟨h0, hm, a, ha, rfl⟩
+                      rw [e1] at e2; exact (hxe (Option.some.inj e2).symm).elim
+                · simp only [hk2, if_false]
+                  rw [hI.label l x]
+                  constructor
+                  · rintro ⟨h0, hx, b, hb, hbl⟩
+                    refine ⟨h0, hx, b, ?_, hbl⟩
+                    rw [hder]
+                    have : ¬ id = x := by
+                      intro e; subst e
+                      rw [ha] at hb; cases hb; exact hk2 hbl
+                    simp [this, hb]
+                  · rintro ⟨h0, hx, b, hb, hbl⟩
+                    rw [hder] at hb
+                    by_cases hxe : id = x
+                    · simp only [hxe, if_true, Option.some.injEq] at hb
+                      subst hb
+                      have e : label = l := hbl
+                      exact absurd ⟨by rw [e]; exact h0, e⟩ hk
+                    · simp only [hxe, if_false] at hb
+                      exact ⟨h0, hx, b, hb, hbl⟩
+            · intro x
+              rw [hdf, hlist, key (fun b => b.isDefault = true) (by simp [a']) x]; exact hI.dflt x
+            · intro x hx b hb
+              rw [hlist] at hx; rw [hder] at hb
+              by_cases hxe : id = x
+              · simp only [hxe, if_true, Option.some.injEq] at hb
+                subst hb
+                exact hI.sealOK id hm a ha
+              · simp only [hxe, if_false] at hb; exact hI.sealOK x hx b hb
+          refine ⟨hI3, ?_, Or.inr hfile⟩
+          rw [hlist, hdf]; exact h.dfltSome
+
+/-- object update that may change the default flag, together with a new `defaultAcc` that matches the new flags -/
+theorem setObj_dflt_inv0 {w : W cr} (h : Inv0 w) {id : Nat} {a a' : Acc cr} (hd : w.deref id = some a)
+    (e1 : a'.addr = a.addr) (e2 : a'.label = a.label) (e4 : a'.Sealed) (df : Option Nat)
+    (hdf : ∀ x, df = some x ↔ (x ∈ w.list ∧ ∃ b, (w.setObj id a').deref x = some b ∧ b.isDefault = true)) :
+    Inv0 ({ (w.setObj id a') with dflt := df } : W cr) := by
+  have hder := deref_setObj w id
+  have key : ∀ (P : Acc cr → Prop), (P a' ↔ P a) → ∀ x,
+      (∃ b, (w.setObj id a').deref x = some b ∧ P b) ↔ (∃ b, w.deref x = some b ∧ P b) := by
+    intro P hP x
+    rw [hder]
+    by_cases hx : id = x
+    · subst hx
+      simp only [if_true, hd]
+      constructor
+      · rintro ⟨b, hb, pb⟩; cases hb; exact ⟨a, rfl, hP.mp pb⟩
+      · rintro ⟨b, hb, pb⟩; cases hb; exact ⟨a', rfl, hP.mpr pb⟩
+    · simp [hx]
+  refine ⟨?_, h.listNodup, ?_, ?_, h.addrKeys, h.addrLen, ?_, hdf, ?_⟩
+  · intro x hx
+    rcases mem_ins hx with hx | hx
+    · cases hx; exact deref_lt h.heapOK hd
+    · exact h.fresh x hx
+  · intro x hx
+    have := (key (fun _ => True) (by simp) x).mpr (by obtain ⟨b, hb⟩ := h.listIn x hx; exact ⟨b, hb, trivial⟩)
+    obtain ⟨b, hb, _⟩ := this; exact ⟨b, hb⟩
+  · intro ad x
+    show lk w.byAddr ad = some x ↔ (x ∈ w.list ∧ ∃ b, (w.setObj id a').deref x = some b ∧ b.addr = ad)
+    rw [key (fun b => b.addr = ad) (by simp [e1]) x]; exact h.addr ad x
+  · intro l x
+    show lk w.byLabel l = some x ↔ (l ≠ "" ∧ x ∈ w.list ∧ ∃ b, (w.setObj id a').deref x = some b ∧ b.label = l)
+    rw [key (fun b => b.label = l) (by simp [e2]) x]; exact h.label l x
+  · intro x hx b hb
+    show b.Sealed
+    have hb' : (w.setObj id a').deref x = some b := hb
+    rw [hder] at hb'
+    by_cases hxe : id = x
+    · simp only [hxe, if_true, Option.some.injEq] at hb'; subst hb'; exact e4
+    · simp only [hxe, if_false] at hb'; exact h.sealOK x hx b hb'
+
+theorem setDefault_inv {w : W cr} (h : Inv w) (addr : Nat) : Inv (w.setDefault addr).2 := by
+  unfold W.setDefault
+  split
+  · exact h
+  · rename_i halr
+    split
+    · exact h
+    · rename_i id hl
+      split
+      · exact h
+      · rename_i a ha
+        have hI := h.idx
+        obtain ⟨hm, a0, ha0, haa⟩ := (hI.addr addr id).mp hl
+        rw [ha] at ha0; cases ha0
+        have hds := h.dfltSome (fun e => by rw [e] at hm; cases hm)
+        cases hdd : w.dflt with
+        | none => rw [hdd] at hds; cases hds
+        | some d =>
+          obtain ⟨hmd, o, ho, hod⟩ := (hI.dflt d).mp hdd
+          have hoa : ¬ o.addr = addr := by
+            intro e
+            apply halr
+            simp [W.defaultAddrIs, hdd, ho, e]
+          have hdi : d ≠ id := by
+            intro e; subst e
+            rw [ha] at ho; cases ho; exact hoa haa
+          have hclr : w.clearDefault = w.setObj d { o with isDefault := false } := by
+            simp [W.clearDefault, hdd, ho]
+          rw [hclr]
+          -- step 1: the old default loses its flag
+          have s1 : Inv0 ({ (w.setObj d { o with isDefault := false }) with dflt := none } : W cr) := by
+            apply setObj_dflt_inv0 (a' := { o with isDefault := false }) hI ho rfl rfl (hI.sealOK d hmd o ho)
+            intro x
+            constructor
+            · intro e; cases e
+            · rintro ⟨hx, b, hb, hbd⟩
+              rw [deref_setObj] at hb
+              by_cases hxe : d = x
+              · simp only [hxe, if_true, Option.some.injEq] at hb; subst hb; cases hbd
+              · simp only [hxe, if_false] at hb
+                have := (hI.dflt x).mpr ⟨hx, b, hb, hbd⟩
+                rw [hdd] at this; exact (hxe (Option.some.inj this)).elim
+          have hd1 : (w.setObj d { o with isDefault := false }).deref id = some a := by
+            rw [deref_setObj]; simp [hdi, ha]
+          simp only [hd1]
+          -- step 2: the chosen account gains it
+          have s2 : Inv0 ({ (({ (w.setObj d { o with isDefault := false }) with dflt := none } : W cr).setObj id { a with isDefault := true })
+              with dflt := some id } : W cr) := by
+            apply setObj_dflt_inv0 (a' := { a with isDefault := true }) s1 (a := a) hd1 rfl rfl (hI.sealOK id hm a ha)
+            intro x
+            simp only [Option.some.injEq]
+            constructor
+            · intro e; subst e
+              exact ⟨hm, { a with isDefault := true }, by rw [deref_setObj]; simp, rfl⟩
+            · rintro ⟨hx, b, hb, hbd⟩
+              rw [deref_setObj] at hb
+              by_cases hxe : id = x
+              · exact hxe
+              · simp only [hxe, if_false] at hb
+                have := (s1.dflt x).mpr ⟨hx, b, hb, hbd⟩
+                cases this
+          exact Inv.of_saved s2 (fun _ => rfl)
+
+
+theorem step_inv {w : W cr} (h : Inv w) (op : Op) : Inv (w.step .sound op).2 := by
+  cases op with
+  | new l s p sk a sa =>
+    simp only [W.step, W.newAccount]
+    split
+    · exact h
+    · exact addAccountData_inv h _ rfl rfl
+  | imp l al s p sk a sa m => exact addAccountData_inv h _ rfl rfl
+  | del a p => exact deleteAccount_inv h a p
+  | setDefault a => exact setDefault_inv h a
+  | setLabel a l => exact setLabel_inv h a l
+  | changePw a o n sa => exact changePassword_inv _ h a o n sa
+  | changeScheme a s => exact changeScheme_inv h a s
+  | reload => exact (reload_spec h).1
+
+theorem run_inv {w : W cr} (h : Inv w) (ops : List Op) : Inv (W.run .sound w ops) := by
+  induction ops generalizing w with
+  | nil => exact h
+  | cons op r ih => exact ih (step_inv h op)
+
+/-- a wallet opened from a file with parameters `prm` and no accounts -/
+theorem Inv.load_empty (prm : Nat) : Inv (W.load (some (prm, [])) : W cr) := by
+  obtain ⟨i1, i2, i3, i4⟩ := load_spec (cr := cr) prm [] List.Pairwise.nil (by simp)
+  refine ⟨i1, ?_, Or.inr (by rw [i4, i3, i2])⟩
+  intro hne
+  have := records_length i1
+  rw [i2] at this
+  exact absurd (List.length_eq_zero_iff.mp this.symm) hne
+
+theorem push_heapOK {w : W cr} (h : HeapOK w) (a : Acc cr) : HeapOK (w.push a) := by
+  have hd := deref_push w h a
+  refine ⟨?_, ?_⟩
+  · intro x hx
+    simp only [push_heap, push_next, List.mem_append, List.mem_singleton] at hx ⊢
+    rcases hx with hx | hx
+    · have := h.fresh x hx; omega
+    · subst hx; simp
+  · intro id hid
+    simp only [push_list, List.mem_append, List.mem_singleton] at hid
+    rw [hd]
+    rcases hid with hid | hid
+    · obtain ⟨b, hb⟩ := h.listIn id hid
+      by_cases he : id = w.next
+      · exact ⟨a, by simp [he]⟩
+      · exact ⟨b, by simp [he, hb]⟩
+    · exact ⟨a, by simp [hid]⟩
+
+/-- `load()` rebuilds exactly the record list it reads, whatever the records are -/
+theorem loadRecs_records {w : W cr} (h : HeapOK w) (recs : List (Acc cr)) :
+    (loadRecs w recs).records = w.records ++ recs ∧ (loadRecs w recs).file = w.file ∧ (loadRecs w recs).prm = w.prm := by
+  induction recs generalizing w with
+  | nil => simp [loadRecs]
+  | cons a r ih =>
+    simp only [loadRecs]
+    obtain ⟨i1, i2, i3⟩ := ih (push_heapOK h a)
+    refine ⟨?_, by rw [i2]; rfl, by rw [i3]; rfl⟩
+    rw [i1, records_push h a]; simp
+
+/-- the persisted file always mirrors the in-memory list, whichever repairs are applied -/
+def FileOK (w : W cr) : Prop := (w.file = none ∧ w.list = []) ∨ w.file = some (w.prm, w.records)
+
+theorem step_fileOK (v : Variant) {w : W cr} (h : FileOK w) (op : Op) : FileOK (w.step v op).2 := by
+  have hs : ∀ u : W cr, FileOK u.save := fun u => Or.inr rfl
+  cases op with
+  | new l s p sk a sa =>
+    simp only [W.step, W.newAccount, W.addAccountData]
+    repeat' split
+    all_goals first | exact h | exact hs _
+  | imp l al s p sk a sa m =>
+    simp only [W.step, W.importAccount, W.addAccountData]
+    repeat' split
+    all_goals first | exact h | exact hs _
+  | del a p =>
+    simp only [W.step, W.deleteAccount]
+    repeat' split
+    all_goals first | exact h | exact Or.inr rfl
+  | setDefault a =>
+    simp only [W.step, W.setDefault]
+    repeat' split
+    all_goals first | exact h | exact hs _
+  | setLabel a l =>
+    simp only [W.step, W.setLabel]
+    repeat' split
+    all_goals first | exact h | exact Or.inr rfl
+  | changePw a o n sa =>
+    simp only [W.step, W.changePassword]
+    repeat' split
+    all_goals first | exact h | exact hs _
+  | changeScheme a s =>
+    simp only [W.step, W.changeScheme]
+    repeat' split
+    all_goals first | exact h | exact hs _
+  | reload =>
+    simp only [W.step, W.reload]
+    rcases h with ⟨hf, hl⟩ | hf
+    · rw [hf]; exact Or.inl ⟨rfl, rfl⟩
+    · rw [hf]
+      obtain ⟨i1, i2, i3⟩ := loadRecs_records (w := { (W.fresh cr) with prm := w.prm, file := some (w.prm, w.records) })
+        ⟨by simp [W.fresh], by simp [W.fresh]⟩ w.records
+      refine Or.inr ?_
+      simp only [W.load]
+      rw [i2, i3, i1]
+      simp [W.records, W.fresh]
 
 end OntVerif.Proofs.Wallet
